@@ -80,6 +80,7 @@ inductive Err where
   | rangeTooLarge
   | rangeMismatch
   | not206 (status : Nat) (shown : List Char)
+  | contentRangeMismatch (shown : List Char)   -- a 206 chunk whose Content-Range contradicts the request / probed size
   | reassembledTooLarge
   | decodeFailed (shown : List Char)
   | decodedTooLarge (shown : List Char)
@@ -254,6 +255,38 @@ def parseContentRange (s : List Char) : Option Nat :=
     pyIntDigits ((partitionC '/' s).2.2.takeWhile isPyDigit)
   else none
 
+/-- the three groups of the chunk `Content-Range` pattern (`bytes s-e/(total|*)`), cut deterministically once it matched -/
+def chunkRangeGroups (s : List Char) : List Char × List Char × List Char :=
+  let afterUnit := ((s.dropWhile (fun c => !isPyDigit c)))
+  let g1 := afterUnit.takeWhile isPyDigit
+  let r1 := (afterUnit.dropWhile isPyDigit).drop 1          -- the '-'
+  let g2 := r1.takeWhile isPyDigit
+  let r2 := (r1.dropWhile isPyDigit).drop 1                  -- the '/'
+  let g3 := match r2 with
+    | '*' :: _ => ['*']
+    | _ => r2.takeWhile isPyDigit
+  (g1, g2, g3)
+
+/-- `_content_range_mismatch(...) is not None` -/
+def contentRangeMismatch (cr : Option (List Char)) (start stop : Nat) (total : Option Nat) : Bool :=
+  match cr with
+  | none => false
+  | some s =>
+    if regexAccepts Gen.Fetch.chunkRangePattern Gen.Fetch.chunkRangeCall s && Gen.Fetch.chunkRangeCheckRecognised then
+      let g := chunkRangeGroups s
+      match pyIntDigits g.1, pyIntDigits g.2.1 with
+      | some a, some b =>
+        if g.2.2 = ['*'] then (a != start || b != stop)
+        else match pyIntDigits g.2.2 with
+          | none => false
+          | some t =>
+            if a != start || b != stop then true
+            else match total with
+              | some n => t != n
+              | none => false
+      | _, _ => false
+    else false
+
 def isSpace (c : Char) : Bool := Gen.Fetch.spaceRanges.any (fun r => r.1 ≤ c.toNat && c.toNat ≤ r.2)
 
 /-- `s.strip()` -/
@@ -307,13 +340,16 @@ def computeRanges (n c : Nat) : List (Nat × Nat) :=
   (List.range ((n + c - 1) / c)).map fun i => (i * c, min (i * c + c - 1) (n - 1))
 
 /-- `_fetch_one_chunk` -/
-def fetchOneChunk {σ : Type} (env : Env) (o : Origin σ) (cfg : Cfg) (s : σ) (url : Url) (rg : Nat × Nat) : Out σ Bytes :=
+def fetchOneChunk {σ : Type} (env : Env) (o : Origin σ) (cfg : Cfg) (s : σ) (url : Url) (rg : Nat × Nat)
+    (total : Option Nat := none) : Out σ Bytes :=
   let f := request env o cfg .get (some rg) s url
   match f.val with
   | .error e => ⟨.error e, f.trace, f.st⟩
   | .ok r =>
     if !statusOk r.status then ⟨.error (.httpStatus r.status (redact env.bracketOk url)), f.trace, f.st⟩
     else if r.status ≠ 206 then ⟨.error (.not206 r.status (redact env.bracketOk url)), f.trace, f.st⟩
+    else if contentRangeMismatch r.contentRange rg.1 rg.2 total then
+      ⟨.error (.contentRangeMismatch (redact env.bracketOk url)), f.trace, f.st⟩
     else
       let expected := rg.2 - rg.1 + 1
       let rd := readRange cfg expected r
@@ -334,7 +370,7 @@ def assemble (results : List (Nat × Bytes)) : Nat → Option Bytes
 def collected (results : List (Nat × Bytes)) (n : Nat) : Bool := (List.range n).all (fun i => (lookup i results).isSome)
 
 /-- the collection loop of `_fetch_chunks_with_hedging` over a completion schedule of chunk attempts -/
-def collect {σ : Type} (env : Env) (o : Origin σ) (cfg : Cfg) (url : Url) (ranges : List (Nat × Nat)) :
+def collect {σ : Type} (env : Env) (o : Origin σ) (cfg : Cfg) (url : Url) (total : Option Nat) (ranges : List (Nat × Nat)) :
     List Nat → List (Nat × Bytes) → Trace → σ → Out σ (List (Nat × Bytes))
   | [], results, tr, s =>
     if collected results ranges.length then ⟨.ok results, tr, s⟩ else ⟨.error .schedule, tr, s⟩
@@ -342,22 +378,22 @@ def collect {σ : Type} (env : Env) (o : Origin σ) (cfg : Cfg) (url : Url) (ran
     if collected results ranges.length then ⟨.ok results, tr, s⟩     -- `break`: remaining attempts are cancelled
     else
       match ranges[i]? with
-      | none => collect env o cfg url ranges rest results tr s
+      | none => collect env o cfg url total ranges rest results tr s
       | some rg =>
-        let r := fetchOneChunk env o cfg s url rg
+        let r := fetchOneChunk env o cfg s url rg total
         match r.val with
         | .error e =>
-          if (lookup i results).isSome then collect env o cfg url ranges rest results (tr.app r.tr) r.st   -- lost hedge
+          if (lookup i results).isSome then collect env o cfg url total ranges rest results (tr.app r.tr) r.st   -- lost hedge
           else ⟨.error e, tr.app r.tr, r.st⟩
         | .ok data =>
-          if (lookup i results).isSome then collect env o cfg url ranges rest results (tr.app r.tr) r.st
-          else collect env o cfg url ranges rest ((i, data) :: results) (tr.app r.tr) r.st
+          if (lookup i results).isSome then collect env o cfg url total ranges rest results (tr.app r.tr) r.st
+          else collect env o cfg url total ranges rest ((i, data) :: results) (tr.app r.tr) r.st
 
 /-- `_fetch_chunks_with_hedging` -/
 def fetchChunks {σ : Type} (env : Env) (o : Origin σ) (cfg : Cfg) (sched : List Nat) (s : σ) (url : Url) (n : Nat) :
     Out σ Bytes :=
   let ranges := computeRanges n cfg.chunkSize
-  let c := collect env o cfg url ranges sched [] {} s
+  let c := collect env o cfg url (some n) ranges sched [] {} s
   match c.val with
   | .error e => ⟨.error e, c.tr, c.st⟩
   | .ok results =>
@@ -412,6 +448,7 @@ def useParallel (cfg : Cfg) (p : Probe) : Bool :=
   match p.len with
   | none => false
   | some n => contains "bytes".toList (lowerAscii p.acceptRanges) && cmpNat Gen.Fetch.parallelCmp n cfg.parallelThreshold
+      && (!Gen.Fetch.parallelNonEmpty || decide (n > 0))
 
 /-- `_fetch_with_probe` up to (not including) the decode step: the encoded bytes and the codec header that applies -/
 def fetchEncoded {σ : Type} (env : Env) (o : Origin σ) (cfg : Cfg) (sched : List Nat) (s : σ) (url : Url) :
